@@ -250,6 +250,18 @@ theorem c12_keeps_working (b : OutBuf) (ops next : List Op) (hfail : (b.runStop 
   rw [h]
   exact ⟨rfl, rfl, rfl⟩
 
+/-- `Reset` in the middle of a sequence: whatever was written before it (without a failure)
+is forgotten; the rest behaves as on a fresh buffer. With `c12_buffer_exact` this gives
+exactness for every sequence of `write | writeByte | writeString | reset`: only the writes
+after the last `Reset` count. -/
+theorem c12_reset_restarts (b : OutBuf) (pre post : List Op) (h : (b.runStop pre).2 = false) :
+    b.runStop (pre ++ Op.reset :: post) = (OutBuf.new b.limit).runStop post := by
+  rw [runStop_append pre _ b h]
+  simp only [runStop, apply_reset]
+  have : (b.runStop pre).1.reset = OutBuf.new b.limit := by
+    rw [c12_reset_initial, runStop_limit]
+  simp [this]
+
 /-- Known finding `json-sticky-writer` (KNOWN_FINDINGS.txt), on a concrete witness: the
 hypothesis of `c12_response_reported` that the error reply's writes reach the buffer fails
 for a buffered encoder whose `Flush` failed (TJSONProtocol keeps the error in its
